@@ -1277,7 +1277,19 @@ fn diff_edge_attachments(
 ) {
     for id in after_edges.keys() {
         let edge_id = EdgeId(*id);
-        let before_val = before.edge_attachment(&edge_id);
+        // A re-parented edge (same id, different `from`) is emitted as DeleteEdge + UpsertEdge,
+        // and replaying the DeleteEdge clears the edge's attachment. Treat it as having no prior
+        // attachment so the surviving value is re-established by an explicit SetAttachment.
+        let reparented = before.edge_index.get(&edge_id).is_some_and(|from| {
+            after_edges
+                .get(id)
+                .is_some_and(|record| record.from != *from)
+        });
+        let before_val = if reparented {
+            None
+        } else {
+            before.edge_attachment(&edge_id)
+        };
         let after_val = after.edge_attachment(&edge_id);
         if before_val == after_val {
             continue;
@@ -1287,7 +1299,9 @@ fn diff_edge_attachments(
             warp_id,
             local_id: edge_id,
         });
-        if skip_attachment_ops.contains(&key) {
+        // The OpenPortal canonicalisation sets the slot itself, but on a re-parented edge the
+        // later DeleteEdge clears it again, so the SetAttachment must still be emitted.
+        if skip_attachment_ops.contains(&key) && !reparented {
             continue;
         }
         ops.push(WarpOp::SetAttachment {
